@@ -481,4 +481,29 @@ theorem static_body_zero_motion (s : Scene ℝ) (t : ObjType) (id bid : Nat) (pr
   · simp [objectVelocity, hb, hx, hbody, hw, hdof]
   · simp [objectAcceleration, hb, hx, hbody, hw, hdof]
 
+/-! ### property level -/
+
+/-- **PARTIAL.** The property "every sensor reports its documented quantity, clamped by the cutoff where documented" at
+the level of `mj_computeSensor`, for the frame position / axis sensors: whenever the object and reference frames
+exist, the reading is `apply_cutoff` of `R_refᵀ (p − p_ref)` (FRAMEPOS), of `p` (no reference) and of `R_refᵀ` times the
+object's axis.  What is missing for the full property: the other modelled kinds are covered by the per-formula theorems
+above (`frameQuat_eq_spec`, `frameVel_eq_spec`, `objectVelocity_*`, `objectAcceleration_eq_spec`, `siteWrench_eq_spec`)
+but not restated at this level, and every sensor type outside the model (joint / tendon / actuator / limit / ball /
+touch / subtree / magnetometer / clock / energy / insidesite / user / rangefinder / geomdist / contact / tactile / plugin)
+is decided by the property oracle of `checks/c28.py` only. -/
+theorem computeSensor_frame_eq_spec_partial (s : Scene ℝ) (dt : DataType) (c : ℝ) (ot rt : ObjType) (oid rid : Nat)
+    (p pr : Vec3) (R Rr : Mat3) (ho : getXposXmat s ot oid = some (p, R)) (hr : getXposXmat s rt rid = some (pr, Rr)) :
+    computeSensor s .framepos dt c ot oid (some (rt, rid)) =
+      some (applyCutoff .regular dt c (l3 (matTVec Rr (vsub p pr)))) ∧
+    computeSensor s .framepos dt c ot oid none = some (applyCutoff .regular dt c (l3 p)) ∧
+    ∀ k, computeSensor s (.frameaxis k) dt c ot oid (some (rt, rid)) =
+      some (applyCutoff .regular dt c (l3 (matTVec Rr (col R k)))) := by
+  refine ⟨?_, ?_, ?_⟩
+  · simp [computeSensor, computeRaw, ho, hr, framePos_eq_spec]
+  · simp [computeSensor, computeRaw, ho, framePos_global]
+  · intro k
+    simp [computeSensor, computeRaw, ho, hr, (frameAxis_eq_spec k p pr R Rr).2.1]
+
+example : getXposXmat (α := ℝ) ⟨[], [], [⟨0, (1, 2, 3), matOne, quatOne⟩], []⟩ .site 0 = some ((1, 2, 3), matOne) := rfl
+
 end MjProof.C28
